@@ -1,7 +1,10 @@
 (* C16: proofs about model/Rpc.v.  Depends on gen/GenRpc.v (regenerated from /repo every run):
    the lemmas marked GEN are where a change of the generated facts breaks the proof. *)
 From Coq Require Import List Arith NArith Bool Lia.
-From SV Require Import lib.Bytes lib.RpcTypes gen.GenRpc model.Rpc.
+From SV Require Import lib.Bytes.
+From SV Require Import lib.RpcTypes.
+From SV Require Import gen.GenRpc.
+From SV Require Import model.Rpc.
 Import ListNotations.
 Open Scope N_scope.
 
